@@ -496,6 +496,192 @@ impl BorrowRaw for tiny_std::process::AnonPipe {
     }
 }
 
+// ---------- the `start` build: no-libc probe with Environment::Inherit ----------
+
+fn spawn_probe_path() -> String {
+    let root = simk::runner::verif_root();
+    root.join("target/probes/release/spawn-probe").to_string_lossy().to_string()
+}
+
+/// One case of the `start` build: the probe (tiny-std with `executable`) spawns dumpenv with the
+/// default, inherited environment; one of the probe's own system calls may be failed from argv.
+fn start_probe_case(dec: &mut Dec, record: bool, slot: u64) -> RunOut {
+    use std::os::unix::ffi::OsStrExt;
+    use std::os::unix::process::CommandExt;
+    let mut out = RunOut::default();
+    let dir = format!("/verif/work/c13s.{}.{}", unsafe { libc::getpid() }, slot % 4);
+    let _ = std::fs::remove_dir_all(&dir);
+    std::fs::create_dir_all(&dir).unwrap();
+    // the environment the probe is started with = what its child must inherit
+    let nenv = dec.choose(K::Arg, 7) as usize;
+    let mut env: Vec<(Vec<u8>, Vec<u8>)> = Vec::new();
+    for i in 0..nenv {
+        let key = format!("K{i:02}").into_bytes();
+        let val = match dec.choose(K::Arg, 5) {
+            0 => Vec::new(),
+            1 => b"a=b=c".to_vec(),
+            2 => vec![0xff, 0x80, b'x'],
+            3 => vec![b'v'; 1 + dec.choose(K::Arg, 3000) as usize],
+            _ => format!("val{i}").into_bytes(),
+        };
+        env.push((key, val));
+    }
+    let nargs = dec.choose(K::Arg, 4) as usize;
+    let exit = [0, 3, 42][dec.choose(K::Arg, 3) as usize];
+    let mut args: Vec<Vec<u8>> = (0..nargs)
+        .map(|i| match dec.choose(K::Arg, 3) {
+            0 => Vec::new(),
+            1 => vec![0xc3, 0x28],
+            _ => format!("arg{i}").into_bytes(),
+        })
+        .collect();
+    args.push(format!("exit={exit}").into_bytes());
+    let stdio_null = dec.chance(K::Arg, 1, 2);
+    // half of the cases replace the inherited environment by a provided one (Command::env)
+    let provided: Vec<Vec<u8>> = if dec.chance(K::Arg, 1, 2) {
+        (0..1 + dec.choose(K::Arg, 5)).map(|i| match dec.choose(K::Arg, 4) {
+            0 => format!("P{i}=").into_bytes(),
+            1 => b"DUP=1".to_vec(),
+            2 => format!("P{i}=x=y").into_bytes(),
+            _ => format!("P{i}=v{i}").into_bytes(),
+        }).collect()
+    } else {
+        Vec::new()
+    };
+    let (side, index, errno) = if dec.chance(K::Fault, 2, 3) {
+        (1 + dec.choose(K::Fault, 2), dec.choose(K::Fault, 14), *dec.pick(K::Fault, &[1, 2, 4, 5, 9, 11, 12, 13, 24]))
+    } else {
+        (0, 0, 0)
+    };
+    let dump = std::fs::OpenOptions::new().read(true).write(true).create(true).truncate(true).open(format!("{dir}/dump")).unwrap();
+    let rep = std::fs::OpenOptions::new().read(true).write(true).create(true).truncate(true).open(format!("{dir}/report")).unwrap();
+    let (dfd, rfd) = (dump.as_raw_fd(), rep.as_raw_fd());
+    let mut c = std::process::Command::new(spawn_probe_path());
+    c.arg(dumpenv_path()).arg(side.to_string()).arg(index.to_string()).arg(errno.to_string()).arg(if stdio_null { "1" } else { "0" });
+    c.arg(provided.len().to_string());
+    for e in &provided {
+        c.arg(std::ffi::OsStr::from_bytes(e));
+    }
+    for a in &args {
+        c.arg(std::ffi::OsStr::from_bytes(a));
+    }
+    c.env_clear();
+    for (k, v) in &env {
+        c.env(std::ffi::OsStr::from_bytes(k), std::ffi::OsStr::from_bytes(v));
+    }
+    c.stdin(std::process::Stdio::null()).stdout(std::process::Stdio::null()).stderr(std::process::Stdio::null());
+    unsafe {
+        c.pre_exec(move || {
+            libc::dup2(dfd, 200);
+            libc::dup2(rfd, 201);
+            Ok(())
+        });
+    }
+    let status = c.status();
+    let report = std::fs::read_to_string(format!("{dir}/report")).unwrap_or_default();
+    let dump_s = std::fs::read_to_string(format!("{dir}/dump")).unwrap_or_default();
+    let _ = std::fs::remove_dir_all(&dir);
+    let mut fired_nr: Option<(Side, usize)> = None;
+    let mut spawn_ok = false;
+    let mut err_code: Option<i32> = None;
+    let mut wait_status: Option<i32> = None;
+    let mut pid = 0;
+    for l in report.lines() {
+        if let Some(r) = l.strip_prefix("spawn ok pid=") {
+            spawn_ok = true;
+            pid = r.parse().unwrap_or(0);
+        } else if let Some(r) = l.strip_prefix("spawn err code=") {
+            err_code = r.parse().ok();
+        } else if let Some(r) = l.strip_prefix("wait status=") {
+            wait_status = r.parse().ok();
+        } else if l.starts_with("calls ") {
+            for part in l.split(' ') {
+                if let Some(v) = part.strip_prefix("child_fired_nr=") {
+                    let n: usize = v.parse().unwrap_or(0);
+                    if n > 0 {
+                        fired_nr = Some((Side::Child, n - 1));
+                    }
+                } else if let Some(v) = part.strip_prefix("parent_fired_nr=") {
+                    let n: usize = v.parse().unwrap_or(0);
+                    if n > 0 {
+                        fired_nr = Some((Side::Parent, n - 1));
+                    }
+                }
+            }
+        }
+    }
+    let label = match fired_nr {
+        Some((Side::Parent, n)) => format!("start-build|{}", sys_name(n)),
+        Some((Side::Child, n)) => format!("start-build|child:{}", sys_name(n)),
+        None => "start-build|no-fault".to_string(),
+    };
+    let mut viol: Option<Violation> = None;
+    let complete = report.contains("end\n") || report.ends_with("end\n") || report.lines().any(|l| l == "end");
+    if report.contains("returned-in-child") {
+        viol = Some(Violation { sig: format!("returned-in-child|{label}"), detail: format!("{label}: spawn returned in the forked child as well") });
+    } else if !complete {
+        viol = Some(Violation { sig: format!("probe-died|{label}"), detail: format!("the probe did not finish (status {status:?}); report: {report:?}") });
+    } else {
+        let mut unjudged = false;
+        let mut expect_err: Option<Option<i32>> = None;
+        if let Some((sd, n)) = fired_nr {
+            let transparent = n == sc::nr::CLOSE || (n == sc::nr::READ && errno == 4);
+            if sd == Side::Child && (n == sc::nr::WRITE || n == sc::nr::EXIT) {
+                unjudged = true;
+            } else if !transparent {
+                expect_err = Some(if n == sc::nr::READ || n == sc::nr::WAIT4 { None } else { Some(errno as i32) });
+            }
+        }
+        if !unjudged {
+            match (spawn_ok, expect_err) {
+                (true, Some(e)) => viol = Some(Violation { sig: format!("failure-reported-as-success|{label}"), detail: format!("{label} failed (errno {e:?}) but spawn returned Ok") }),
+                (false, Some(Some(e))) => {
+                    if err_code != Some(e) {
+                        viol = Some(Violation { sig: format!("wrong-errno|{label}"), detail: format!("{label} failed with errno {e}, spawn reported code {err_code:?}") });
+                    }
+                }
+                (false, Some(None)) => {}
+                (false, None) => viol = Some(Violation { sig: format!("spurious-error|{label}"), detail: format!("no step failed, spawn reported code {err_code:?}") }),
+                (true, None) => {
+                    let d = parse_dump(&dump_s);
+                    let mut exp_args: Vec<Vec<u8>> = vec![dumpenv_path().into_bytes()];
+                    exp_args.extend(args.iter().cloned());
+                    let exp_env: Vec<Vec<u8>> = env.iter().map(|(k, v)| [k.as_slice(), b"=", v.as_slice()].concat()).collect();
+                    let mut got_env = d.env.clone();
+                    let mut want_env = if provided.is_empty() { exp_env.clone() } else { provided.clone() };
+                    if provided.is_empty() {
+                        got_env.sort();
+                        want_env.sort();
+                    }
+                    if !d.complete {
+                        viol = Some(Violation { sig: format!("child-differs|no-dump|{label}"), detail: "spawn returned Ok but the program did not run to completion".into() });
+                    } else if d.pid != pid {
+                        viol = Some(Violation { sig: format!("child-differs|pid|{label}"), detail: format!("Child::get_pid {pid}, program ran as {}", d.pid) });
+                    } else if d.args != exp_args {
+                        viol = Some(Violation { sig: format!("child-differs|argv|{label}"), detail: format!("argv differs: {} configured, {} seen", exp_args.len(), d.args.len()) });
+                    } else if got_env != want_env {
+                        viol = Some(Violation { sig: format!("child-differs|{}|{label}", if provided.is_empty() { "inherited-env" } else { "provided-env" }), detail: format!("environment differs: expected {} entries, program saw {}", want_env.len(), got_env.len()) });
+                    } else if wait_status != Some(exit << 8) {
+                        viol = Some(Violation { sig: format!("wait-status|{label}"), detail: format!("exit code {exit}, wait reported {wait_status:?}") });
+                    }
+                }
+            }
+        }
+    }
+    out.violation = viol;
+    out.hash = simk::dec::mix(&[simk::dec::hash_str(&report.lines().filter(|l| !l.contains("pid=")).collect::<Vec<_>>().join("|")), u64::from(side), u64::from(index), errno as u64]);
+    out.shape = out.hash;
+    out.nontrivial = fired_nr.is_some();
+    out.counters.insert("probe.start_build_cases", 1);
+    out.counters.insert("fault.start_build_parent_side_fired", u64::from(matches!(fired_nr, Some((Side::Parent, _)))));
+    out.counters.insert("fault.start_build_child_side_fired", u64::from(matches!(fired_nr, Some((Side::Child, _)))));
+    if record {
+        out.events = report.lines().map(String::from).collect();
+        out.sample = Some(json!({"command": "start build (no-libc spawn-probe, Environment::Inherit)", "env_entries": nenv, "args": args.len(), "plan": format!("side {side} index {index} errno {errno}"), "report": report}));
+    }
+    out
+}
+
 struct Table {
     cases: Vec<(usize, Option<Plan>)>,
 }
@@ -547,7 +733,7 @@ impl Check for C13 {
     }
     fn assumptions(&self) -> Vec<String> {
         vec![
-            "tiny-std is built without the `start` feature in this harness (Environment::Inherit does not exist there); the `start` build is not exercised by this check".into(),
+            "engine A links tiny-std without the `start` feature (Environment::Inherit does not exist there); the `start` build runs as a separate no-libc probe (probes/spawnprobe, a quarter of the seeded cases) that inherits a generated environment and can fail one of its own calls through the sc shim".into(),
             "faults on close, on an EINTR read of the sync pipe, and on the child's write/exit after a failed exec are treated as transparent (spawn may succeed)".into(),
             "parent and child really run concurrently; the CLOEXEC pipe makes the outcome schedule-independent".into(),
         ]
@@ -560,6 +746,11 @@ impl Check for C13 {
     }
     fn run(&self, case: u64, mut dec: Dec, opts: &RunOpts) -> RunOut {
         let t = table();
+        if (case as usize) >= t.cases.len() && case % 4 == 3 {
+            let mut o = start_probe_case(&mut dec, opts.record, case);
+            o.decisions = std::mem::take(&mut dec.log);
+            return o;
+        }
         let (cmd, plan, which) = if (case as usize) < t.cases.len() {
             let (i, p) = t.cases[case as usize];
             (base_cmds()[i].clone(), p, format!("base#{i}"))
@@ -581,10 +772,14 @@ impl Check for C13 {
         let (o, mut dec) = run_cmd(&cmd, plan, dec, opts.record, case);
         let mut out = RunOut::default();
         let mut h = simk::dec::hash_str(&format!("{cmd:?}"));
-        for n in o.trace.iter().chain(o.child_trace.iter()) {
+        // only spawn's own calls: the harness's try_wait/wait afterwards race with the real child
+        for n in o.trace.iter().take(o.spawn_calls).chain(o.child_trace.iter()) {
             h = simk::dec::mix(&[h, *n as u64]);
         }
         h = simk::dec::mix(&[h, plan.map_or(0, |p| u64::from(p.index) << 16 | p.errno as u64 | if p.side == Side::Child { 1 << 40 } else { 0 })]);
+        if std::env::var("C13_DEBUG").is_ok() {
+            eprintln!("trace={:?} child={:?} plan={plan:?} cmdhash={:x}", o.trace, o.child_trace, simk::dec::hash_str(&format!("{cmd:?}")));
+        }
         out.violation = o.violation;
         out.hash = h;
         out.shape = h;
